@@ -108,7 +108,7 @@ Proof.
   now rewrite Z.eqb_refl, IH.
 Qed.
 
-Theorem check_sound c : C02_check sum c (case_model sum sha1 c) = true.
+Theorem check_sound c : C02_check sum sha1 c (case_model sum sha1 c) = true.
 Proof.
   destruct c as [name pl chunks fail|raw|tbl sizes|tbl name data]; cbn [case_model C02_check].
   - (* NewMetaInfo / NewMetaInfoFromBytes / round trip *)
@@ -129,7 +129,10 @@ Proof.
         destruct (valid_name name) eqn:Hn; [|reflexivity].
         rewrite roundtrip_generated; [|assumption|lia|assumption|assumption].
         cbn [observe_res]. now rewrite rel_obs_same.
-  - reflexivity.
+  - (* foreign document *)
+    destruct (deserialize sha1 raw) as [mi| |] eqn:E; cbn [observe_res]; try reflexivity.
+    cbn [observe o_ser]. fold (observe mi). rewrite (reserialize_stable sha1 raw mi E).
+    cbn [observe_res]. apply mobs_eqb_refl.
   - (* table lookup *)
     destruct (table_ok tbl) eqn:Hok; [|reflexivity]. cbn [negb].
     destruct tbl as [|p tbl]; [reflexivity|].
@@ -155,7 +158,7 @@ Qed.
 
 End Gen.
 
-Theorem check_sound_crc32 c : C02_check crc32 c (case_model crc32 sha1_bytes c) = true.
+Theorem check_sound_crc32 c : C02_check crc32 sha1_bytes c (case_model crc32 sha1_bytes c) = true.
 Proof. apply check_sound. exact crc32_u32. Qed.
 
 Theorem zero_digest_witness : exists data pl,
